@@ -1954,10 +1954,10 @@ class collect(Stream):
     def flush(self, _=None):
         out = tuple(self.cache)
         metadata = list(self.metadata_cache)
-        self._emit(out, metadata)
-        self._release_refs(metadata)
         self.cache.clear()
         self.metadata_cache.clear()
+        self._emit(out, metadata)
+        self._release_refs(metadata)
 
 
 @Stream.register_api()
